@@ -169,6 +169,11 @@ def judge_c09(case, side, res):
             v["ok"] = False
             v["oracle_why"] = ("a module without JSX and without a call of Vue's defineComponent (provenance: %s) did not come back unchanged"
                                % case["truth"]["prov"])
+        elif case.get("stream") == "types" and case.get("truth", {}).get("prov") != "named":
+            # a call that is not Vue's defineComponent is an `other expression`: it must appear unchanged
+            w = judge_c20(case, side, res)
+            if not w.get("ok", True) and "was changed" in (w.get("oracle_why") or ""):
+                v["ok"] = False; v["oracle_why"] = w["oracle_why"]
     return v
 
 
@@ -272,7 +277,8 @@ def gen_c14(seed, tier, start):
         choices = []
         if not ({"attrk:on", "attrk:nativeOn"} & f):
             choices.append("transformOn")
-        if not any(x.startswith("single:") for x in f):
+        if not ({"single:ident", "single:call", "single:any", "single:maybe"} & f):
+            # a sole function / object-literal / text / element child is NOT governed by the option
             choices.append("enableObjectSlots")
         if not ({"spread", "attr:repeated", "attrk:directive", "attrk:update"} & f):
             # no spread, no attribute written twice, no directive that adds a listener of its own
